@@ -22,6 +22,7 @@ import QuinnModel.Drv.Asm
 import QuinnModel.Drv.CidEcho
 import QuinnModel.Drv.FrameRules
 import QuinnModel.Drv.Rcv
+import QuinnModel.Drv.KeyUpdate
 /-
 Native model driver: one request per line on stdin, one canonical response line on stdout.
 `case <id>` resets every component state (and is echoed).
@@ -48,6 +49,7 @@ structure St where
   sbuf : SendBuffer.SendBuffer := {}
   asm : Assembler.Asm := {}
   cidecho : Drv.CidEchoDrv.St := {}
+  keyupd : KeyUpdate.State := KeyUpdate.init
 
 def step (s : St) (line : String) : St × String :=
   match words line with
@@ -65,6 +67,7 @@ def step (s : St) (line : String) : St × String :=
   | "sbuf" :: r => let (d, o) := Drv.sbuf s.sbuf r; ({ s with sbuf := d }, o)
   | "asm" :: r => let (d, o) := Drv.asm s.asm r; ({ s with asm := d }, o)
   | "cidecho" :: r => let (d, o) := Drv.cidecho s.cidecho r; ({ s with cidecho := d }, o)
+  | "keyupd" :: r => let (d, o) := Drv.keyupd s.keyupd r; ({ s with keyupd := d }, o)
   | "cidq" :: r => let (d, o) := Drv.cidq s.cidq r; ({ s with cidq := d }, o)
   | "cidstate" :: r => let (d, o) := Drv.cidstate s.cidstate r; ({ s with cidstate := d }, o)
   | "ackfreq" :: r => let (d, o) := Drv.ackfreq s.ackfreq r; ({ s with ackfreq := d }, o)
